@@ -713,8 +713,8 @@ func judgeFault(r *Run) []Finding {
 	site = fmt.Sprintf("%s/%s", f.Kind, label)
 	if f.Kind == "garbage" {
 		cls := f.Class
-		if strings.HasPrefix(cls, "cut:") {
-			cls = "cut" // one key per message, whatever the cut point (the replay keeps the exact one)
+		if i := strings.IndexByte(cls, ':'); i > 0 {
+			cls = cls[:i] // one key per message and class, whatever the parameter (the replay keeps the exact one)
 		}
 		site = fmt.Sprintf("garbage:%s/%s", cls, label)
 		if strings.HasSuffix(label, "ConfigurationUpdateCommand") {
@@ -769,7 +769,7 @@ func checkC19(c *Ctx) {
 		seeds = 120
 	}
 	c.Level = "fault_enumeration"
-	c.Rule = "per seed: one fault-free baseline of the complete conversation (test mode: 2..4 UEs through all five procedures; every 3rd seed traffic mode), then one run per (downlink message index k) x {close_before, abort_before, garbage:choice, garbage:prefix, garbage:empty-container, garbage:strict prefix at drawn cut points (thorough: every cut point for one seed in eight)}, plus dial_fail and write_err at uplink indices, plus fault sequences (garbage in the exempt CONFIGURATION UPDATE COMMAND, tolerated, followed by a fault at a later message); every 4th seed runs against a slow core so that faults land in the emulator's fixed sleeps; evaluation = one faulted run; distinct = distinct (fault kind, message label at which it was observed, how the process ended); non-trivial = the fault was observed by the emulator"
+	c.Rule = "per seed: one fault-free baseline of the complete conversation (test mode: 2..4 UEs through all five procedures; every 3rd seed traffic mode), then one run per (downlink message index k) x {close_before, abort_before, garbage:choice, garbage:prefix, garbage:empty-container, garbage:strict prefix at drawn cut points (thorough: every cut point for one seed in eight), garbage:inner NAS-PDU length running out of its IE, garbage:undecodable bytes filling the 2048-octet receive buffer exactly / twice / off by one}, plus dial_fail and write_err at uplink indices, plus fault sequences (garbage in the exempt CONFIGURATION UPDATE COMMAND, tolerated, followed by a fault at a later message); every 4th seed runs against a slow core so that faults land in the emulator's fixed sleeps; evaluation = one faulted run; distinct = distinct (fault kind, message label at which it was observed, how the process ended); non-trivial = the fault was observed by the emulator"
 	c.Assume = append(c.Assume, assumptionsWS...)
 	c.Assume = append(c.Assume, "garbage is restricted to octet strings every X.691 decoder must refuse (invalid CHOICE index, length exceeding the data); the message after REGISTRATION COMPLETE is exempt as the statement says; a fault in a message the emulator never reads is not judged")
 	root := kernel.New(c.Seed).Sub("c19")
@@ -834,6 +834,12 @@ func checkC19(c *Ctx) {
 			add(scn.Fault{Kind: "garbage", K: k, Class: "choice"})
 			add(scn.Fault{Kind: "garbage", K: k, Class: "prefix"})
 			add(scn.Fault{Kind: "garbage", K: k, Class: "empty-container"})
+			add(scn.Fault{Kind: "garbage", K: k, Class: fmt.Sprint("inner-len:", []int{1, 2, 7, 40, 100}[(k+i)%5])})
+			add(scn.Fault{Kind: "garbage", K: k, Class: fmt.Sprint("long:", []int{2048, 4096, 2047, 2049, 6144}[(k+i)%5])})
+			if c.Tier == "thorough" {
+				add(scn.Fault{Kind: "garbage", K: k, Class: "long:2048"})
+				add(scn.Fault{Kind: "garbage", K: k, Class: "long:4096"})
+			}
 			// strict prefixes of the genuine reply: two drawn cut points per message, every cut point
 			// in the thorough tier for one seed in eight
 			if n := dlLen[k]; n > 1 {
@@ -896,8 +902,8 @@ func checkC19(c *Ctx) {
 				c.Probes["fault-observed-by-emulator"]++
 				kind, _ := crashSite(r.StderrText())
 				cls := f.Class
-				if strings.HasPrefix(cls, "cut:") {
-					cls = "cut"
+				if i := strings.IndexByte(cls, ':'); i > 0 {
+					cls = cls[:i]
 				}
 				distinct[fmt.Sprintf("%s:%s|%s|exit=%d|%s|%d", f.Kind, cls, label, r.Exit, kind, len(j.S.Faults))] = true
 			} else {
